@@ -110,7 +110,9 @@ def run_case(case):
         allv, info, sig = [], {}, []
         for step in range(3):
             try:
-                pp.pipeflow(net, transient=True, dt=60.0, simulation_time_step=step, **kw)
+                # the residual of the transient heat balance does not get below ~1e-7 W: tol_res as tight as for the
+                # steady calculations would only turn every case into "not converged"
+                pp.pipeflow(net, transient=True, dt=60.0, simulation_time_step=step, **dict(kw, tol_res=1e-6))
             except Exception as e:
                 return {"status": "raised:" + type(e).__name__, "violations": allv}
             r = check_net(net, case)
